@@ -112,8 +112,13 @@ def work(chunk):
         refn = norm_result(ref, 0)
         hb = render(hdr, style)
         pb = render(body, style, 1)
-        for p in plist:
-            cmds = ['bytes.set B0 %s' % hb.hex()]
+        for pj, p in enumerate(plist):
+            cmds = []
+            if pj == 0:
+                # an abandoned parse comes first: its error callback rejects an error while the 4096-byte block just read ends in
+                # the first byte of a two-byte character.  Nothing of that parse may reach the next one.
+                cmds += ['bytes.set B5 %s' % POISON.hex(), 'parse - B5 eh=die', 'parse new:C7 B5 eh=die', 'cif.destroy C7']
+            cmds += ['bytes.set B0 %s' % hb.hex()]
             added = 0
             if base:
                 # a run of full comment lines brings the probe close to a scan-buffer event
@@ -143,6 +148,43 @@ def work(chunk):
 
 
 TERM = {'LF': '\n', 'CR': '\r', 'CRLF': '\r\n'}
+_ph = b"#\\#CIF_2.0\ndata_p\n_x 'unterminated\n_y "
+POISON = _ph + b'v' * (4095 - len(_ph)) + '\u00e9'.encode() + b'\n_z 1\n'
+assert POISON[4095] == 0xc3
+
+
+def work_ws(chunk):
+    """one whitespace run / comment of n units behind `lead` units of other content, parsed with the whitespace callback
+    registered: every unit reported to it is whitespace or comment, and together the reports cover exactly the units of the
+    document that are not part of a token"""
+    ex = worker_exec('fast')
+    out = []
+    for kind, n, lead in chunk:
+        if kind == 'blanks':
+            run = ' ' * n
+        elif kind == 'blank-lines':
+            run = ('\n' * n)
+        elif kind == 'mixed':
+            run = (' \t\n' * (n // 3 + 1))[:n]
+        else:
+            run = '#' + 'c' * (n - 2) + '\n'
+        pre = '#\\#CIF_2.0\ndata_b\n' + ''.join('_p%d %s\n' % (i, 'v' * 60) for i in range(lead // 66)) + '_a 1'
+        doc = pre + (' ' if kind == 'comment' else '') + run + '\n_b 2\n'
+        tokens = ['data_b', '_a', '1', '_b', '2'] + [t for i in range(lead // 66) for t in ('_p%d' % i, 'v' * 60)]
+        want = len(doc) - sum(len(t) for t in tokens)
+        try:
+            a = ex.run(['reset', 'bytes.set B0 %s' % doc.encode().hex(), 'parse new:C0 B0 syn=2', 'dump C0'], timeout=120)
+        except Crash as c:
+            out.append((kind, '%d units behind %d' % (n, lead), 0, 0, 'crash / sanitizer report / hang: %s %s' % (c, c.stderr[-600:])))
+            ex = worker_exec('fast')
+            continue
+        r = a[-2]
+        if not isinstance(r, dict) or r.get('rc') != 0 or r.get('nerr'):
+            out.append((kind, '%d units behind %d' % (n, lead), 0, 0, 'the document does not parse: %r' % (r,)))
+        elif r['ws_bad'] or r['ws_total'] != want:
+            out.append((kind, '%d units behind %d' % (n, lead), 0, 0, 'whitespace callback: %d report(s) with an impossible length or non-whitespace content; %d units reported in %d calls, the document has %d units outside its tokens' % (r['ws_bad'], r['ws_total'], r['ws_events'], want)))
+    return (len(chunk), out)
+
 
 
 def two_seam_doc(host, e, t1, d1, t2, d2):
@@ -355,8 +397,21 @@ def main():
         nlong += n
         for name, cell, base, p, msg in out:
             rep.violation({'probe': name, 'style': cell.split('/')[0], 'kind': msg[:60]}, {'probe': name, 'cell': cell, 'message': msg})
-    total += ntwo + nlong
-    return rep.finish({'evaluations': total, 'distinct_nontrivial': len(PROBES) * len(STYLES) * len(bases) + ntwo + nlong, 'two_seam_documents': ntwo, 'long_token_documents': nlong,
+    # whitespace runs and comments around the scan-buffer sizes, reported through the whitespace callback
+    wsj = [(kind, n, lead) for kind in ('blanks', 'blank-lines', 'mixed', 'comment') for n in ((2000, 70000, 150000) if kind != 'comment' else (2000,))
+           for lead in ([0, 60000, 129000, 130000, 130900, 131000, 131100, 131150, 131200, 131300] if tier == 'quick' else list(range(128000, 132000, 66)) + [0, 60000, 262000])
+           if not (kind in ('blanks',) and n > 2040)]
+    nws = 0
+    for res in pmap(work_ws, chunked(wsj, max(1, len(wsj) // (NPROC * 2))), ()):
+        if isinstance(res, dict):
+            rep.violation({'kind': 'executor'}, res)
+            continue
+        n, out = res
+        nws += n
+        for name, cell, base, p, msg in out:
+            rep.violation({'probe': 'whitespace ' + name, 'style': cell, 'kind': msg[:60]}, {'probe': name, 'cell': cell, 'message': msg})
+    total += ntwo + nlong + nws
+    return rep.finish({'evaluations': total, 'distinct_nontrivial': len(PROBES) * len(STYLES) * len(bases) + ntwo + nlong, 'two_seam_documents': ntwo, 'long_token_documents': nlong, 'whitespace_run_documents': nws,
                        'rule': '%d probe documents (every token kind, multi-unit constructs, text-field protocols, CIF 1.1 forms and 11 defect probes) x terminator styles %r x base offsets %r x paddings: quick = every padding that puts some byte of the probe on the next 4096-byte seam (+-8), thorough = every padding 0..4111; '
                                'padding is comment lines of at most 2000 characters rendered in the same style; line numbers are compared after subtracting the known number of added lines. Plus: 864 documents with one terminator (LF / CR / CR LF) starting at offset 4096-2..+1 and one at 8192-2..+1, among items and inside a text field, all other terminators in each style (reference: the all-LF rendering of the same lines); plus text fields and triple-quoted strings of 140000 units full of supplementary characters behind 0..35 (thorough 139) padding characters; plus single text-field / triple-quoted / bare tokens of 65500..400000 characters after 0..6000 leading items in each style, read back through the API and compared with the text that was generated. non-trivial = probe x style x base cells + those documents' % (len(PROBES), STYLES, bases),
                        'samples': [PROBES[1][2], PROBES[3][2]], 'exhaustive': True},
